@@ -2,6 +2,7 @@ from __future__ import annotations
 
 import math
 import re
+import struct
 from collections.abc import Callable, Sequence
 from dataclasses import dataclass, field
 from typing import Any, Literal, NoReturn, cast, overload
@@ -976,17 +977,20 @@ class AttrParser(BaseParser):
                 except (OverflowError, MemoryError):
                     self.raise_error("dense splat literal is too large")
 
-        if isinstance(type.element_type, AnyFloat):
-            new_type = cast(RankedStructure[AnyFloat], type)
-            new_data = cast(Sequence[int | float], data_values)
-            return DenseIntOrFPElementsAttr.from_list(new_type, new_data)
-        elif isinstance(type.element_type, ComplexType):
-            new_type = cast(RankedStructure[ComplexType], type)
-            return DenseIntOrFPElementsAttr.from_list(new_type, data_values)  # pyright: ignore[reportCallIssue,reportUnknownVariableType,reportArgumentType]
-        else:
-            new_type = cast(RankedStructure[IntegerType | IndexType], type)
-            new_data = cast(Sequence[int], data_values)
-            return DenseIntOrFPElementsAttr.from_list(new_type, new_data)
+        try:
+            if isinstance(type.element_type, AnyFloat):
+                new_type = cast(RankedStructure[AnyFloat], type)
+                new_data = cast(Sequence[int | float], data_values)
+                return DenseIntOrFPElementsAttr.from_list(new_type, new_data)
+            elif isinstance(type.element_type, ComplexType):
+                new_type = cast(RankedStructure[ComplexType], type)
+                return DenseIntOrFPElementsAttr.from_list(new_type, data_values)  # pyright: ignore[reportCallIssue,reportUnknownVariableType,reportArgumentType]
+            else:
+                new_type = cast(RankedStructure[IntegerType | IndexType], type)
+                new_data = cast(Sequence[int], data_values)
+                return DenseIntOrFPElementsAttr.from_list(new_type, new_data)
+        except (ValueError, OverflowError, struct.error) as e:
+            self.raise_error(f"invalid element in dense literal: {e}")
 
     def _parse_builtin_dense_attr(self) -> DenseIntOrFPElementsAttr:
         return self.parse_dense_int_or_fp_elements_attr(None)
